@@ -261,7 +261,8 @@ Definition effective_ropt (client_ops request_ops : list rop) : option ropt :=
 (* ---------- per-attempt outcomes ---------- *)
 
 Inductive outcome :=
-| OErr (e : Z) (cancelled : bool)     (* transport error; cancelled = errors.Is(err, context.Canceled) *)
+| OErr (e : Z) (cancelled : bool)     (* transport error; cancelled = errors.Is(err, context.Canceled)
+                                         || r.Context().Err() != nil (cancelled, or past its deadline) *)
 | OStatus (s : Z).
 
 Definition view_of (o : outcome) : view :=
